@@ -102,6 +102,10 @@ type SourcePlan struct {
 	// Once: the failure is transient - the error is returned bare exactly once
 	// at FailAt, afterwards the source carries on from that offset.
 	Once bool `json:"once,omitempty"`
+	// ByteReader: the reader handed to the library also implements
+	// io.ByteReader (like *bytes.Reader or *bufio.Reader, the sources most
+	// callers use; the library takes a different path for them)
+	ByteReader bool `json:"byte_reader,omitempty"`
 }
 
 // Source is a fragmenting, fault-injecting io.Reader over a byte image.
@@ -126,6 +130,37 @@ type Source struct {
 // NewSource creates a source.
 func NewSource(img []byte, p SourcePlan) *Source {
 	return &Source{Plan: p, img: img, rng: sim.NewRng(p.FragSeed), Err: &InjectedError{Kind: "source-EIO"}}
+}
+
+// Reader returns the io.Reader handed to the library: the source behind a
+// wrapper that exposes only Read, or one that also implements io.ByteReader.
+func (s *Source) Reader() io.Reader {
+	if s.Plan.ByteReader {
+		return byteSource{s}
+	}
+	return sourceOnly{s}
+}
+
+type sourceOnly struct{ s *Source }
+
+func (r sourceOnly) Read(p []byte) (int, error) { return r.s.Read(p) }
+
+type byteSource struct{ s *Source }
+
+func (r byteSource) Read(p []byte) (int, error) { return r.s.Read(p) }
+
+// ReadByte delivers one byte; an error that arrives together with the byte is
+// reported by the next call (the simulated failures and EOF are repeatable).
+func (r byteSource) ReadByte() (byte, error) {
+	var b [1]byte
+	n, err := r.s.Read(b[:])
+	if n == 1 {
+		return b[0], nil
+	}
+	if err == nil {
+		err = io.ErrNoProgress
+	}
+	return 0, err
 }
 
 // Offset returns the number of bytes delivered so far.
